@@ -89,9 +89,10 @@ class Starve(Base):
 
     name = "starve"
 
-    def __init__(self, seed, timeout_budget=10, victim=1):
+    def __init__(self, seed, timeout_budget=10, victim=1, impatient=False):
         super().__init__(seed, timeout_budget)
         self.victim = victim
+        self.impatient = impatient  # the others' timed waits (a put on a full bounded queue, a timed join) expire before the victim moves
 
     def choose(self, sched, enabled, me):
         runs, touts = self._split(enabled)
@@ -102,6 +103,9 @@ class Starve(Base):
             pool = others + ([i for i in touts if enabled[i][0].name != victim] if self.timeout_budget > 0 else [])
             return self._spend(enabled, self.rng.choice(pool))
         if runs:
+            waiting = [i for i in touts if enabled[i][0].name != victim]
+            if self.impatient and waiting and self.timeout_budget > 0 and self.rng.random() < 0.8:
+                return self._spend(enabled, self.rng.choice(waiting))
             return self.rng.choice(runs)
         return self._spend(enabled, self.rng.choice(touts))
 
